@@ -25,7 +25,7 @@ func init() {
 			return "", err
 		}
 		type site struct {
-			pos            token.Pos
+			pos           token.Pos
 			fn, node, arg string
 		}
 		type write struct {
